@@ -69,6 +69,10 @@ EXPLANATION += (
     ' Round 7: the rows a tree built from the reference file assigns to leaves are file positions (R-PROV/rows-are-file-positions, rule of C10).'
 )
 
+EXPLANATION += (
+    ' Round 8: gt0 / gt1 / ge1 count cells above 0, above 1 and above 1 - eps (R-ARITH/count-thresholds).'
+)
+
 RULE_TEXT = (
     "one obligation per key of each producer, per required read, per "
     "merge loop, per statistic, per use of the row index")
